@@ -106,6 +106,20 @@ func corpus(thorough bool) [][]bqlm.Clause {
 	// time bounds taken from a binding of an earlier clause: the planner derives the
 	// lookup options of every row from shared options
 	out = append(out, bqlm.BoundAliasShapes()...)
+	// a clause without bindings whose predicate is only partly given (id and time range): it is an existence test that
+	// the driver answers with every predicate between that subject and object, filtered afterwards
+	t1, t2 := model.T1, model.T2
+	for _, bp := range []bqlm.Term{{Kind: bqlm.Bound, ID: "p"}, {Kind: bqlm.Bound, ID: "p", Lo: &t1, Hi: &t2}} {
+		guard := bqlm.Clause{S: bqlm.Term{Kind: bqlm.Const, N: bqlm.NA}, P: bp, O: bqlm.Term{Kind: bqlm.Const, N: bqlm.NB}}
+		for i := range rc {
+			for _, named := range bqlm.Namings([]bqlm.Clause{rc[i]}) {
+				if len(named[0].Bindings()) == 0 {
+					continue
+				}
+				out = append(out, []bqlm.Clause{guard, named[0]}, []bqlm.Clause{named[0], guard})
+			}
+		}
+	}
 	// OPTIONAL second clause (relations: renaming, chanSize, processors, repetition, partition)
 	for i := range rc {
 		for j := range rc {
@@ -189,6 +203,8 @@ func extras() []*triple.Triple {
 	return []*triple.Triple{
 		T(b, bqlm.PImm, model.ON(a)), T(a, bqlm.PT3, model.ON(b)), T(c, bqlm.PImm, model.OL(bqlm.LInt)),
 		T(a, bqlm.QImm, model.OP(bqlm.PT1)), T(a, bqlm.PT1, model.ON(c)), T(b, bqlm.PT2, model.OP(bqlm.PT1)),
+		// other predicates between a and b, printed before and after "p": whatever the driver lists first
+		T(a, model.PI("a"), model.ON(b)), T(a, model.PT("a", model.T1), model.ON(b)), T(a, model.PI("z"), model.ON(b)),
 	}
 }
 
